@@ -6,6 +6,7 @@ import (
 	"fmt"
 	"go/types"
 	"os"
+	"os/exec"
 	"path/filepath"
 	"sort"
 	"strings"
@@ -39,7 +40,7 @@ type Config struct {
 
 func defaultConfig() Config {
 	return Config{MaxSteps: 400000, MaxLoop: 300, MaxDepth: 200, MaxAlloc: 1 << 16, EnumCap: 64, MaxPaths: 2000000,
-		Params: map[string]int{}, Workers: 16, SolverBin: "z3", Samples: 4}
+		Params: map[string]int{}, Workers: 16, SolverBin: envOr("GOSYMX_SOLVER", defaultSolver()), Samples: 4}
 }
 
 type Engine struct {
@@ -54,6 +55,7 @@ type Engine struct {
 	repoDir       string
 	funcIdx       map[string]*ssa.Function
 	funcIdxOnce   sync.Once
+	metaCache     sync.Map
 }
 
 func (e *Engine) noteRedirect(name string) {
@@ -177,6 +179,9 @@ type HarnessResult struct {
 	CrossChecked  int               `json:"crosschecked_queries"`
 	CrossDisagree []string          `json:"crosscheck_disagreements"`
 	MaxDecisions  int               `json:"max_decisions"`
+	PathMs        int64             `json:"path_ms_total"`
+	ModelMs       int64             `json:"model_ms"`
+	Models        int               `json:"models"`
 	groupIdx      int
 }
 
@@ -259,6 +264,8 @@ func (e *Engine) RunHarness(pkgPath, name string) (*HarnessResult, error) {
 				mu.Lock()
 				res.Queries += sol.Queries
 				res.SolverMs += sol.Dur.Milliseconds()
+				res.ModelMs += sol.ModelDur.Milliseconds()
+				res.Models += sol.Models
 				res.Sat += sol.Sat
 				res.Unsat += sol.Unsat
 				res.Unknown += sol.Unknown
@@ -274,12 +281,15 @@ func (e *Engine) RunHarness(pkgPath, name string) (*HarnessResult, error) {
 				mu.Lock()
 				wantSample := len(res.Samples) < e.cfg.Samples
 				mu.Unlock()
+				tp0 := time.Now()
 				p, end := e.runPath(sol, entry, prefix, wantSample)
+				pathDur := time.Since(tp0)
 				for _, alt := range p.pending {
 					wl.push(alt)
 				}
 				mu.Lock()
 				res.Paths++
+				res.PathMs += pathDur.Milliseconds()
 				res.Ends[end.kind]++
 				res.Steps += int64(p.steps)
 				res.Asserts += p.asserts
@@ -294,7 +304,10 @@ func (e *Engine) RunHarness(pkgPath, name string) (*HarnessResult, error) {
 					reached[k] = true
 				}
 				for fn, n := range p.funcs {
-					res.Funcs[fn.String()] += n
+					res.Funcs[e.meta(fn).name] += n
+				}
+				for k, n := range p.redirectsUsed {
+					e.redirectUse[k] += n
 				}
 				for _, v := range p.violations {
 					key := v.Kind + "|" + v.ID
@@ -307,6 +320,9 @@ func (e *Engine) RunHarness(pkgPath, name string) (*HarnessResult, error) {
 					if len(res.Inconclusive) < 50 {
 						res.Inconclusive = append(res.Inconclusive, m)
 					}
+				}
+				if end.kind == "infeasible" && e.cfg.Verbose {
+					fmt.Println("infeasible:", end.msg, "decisions", len(p.trace))
 				}
 				switch end.kind {
 				case "unsupported", "unwind", "internal":
@@ -380,7 +396,7 @@ func (e *Engine) crossCheck(res *HarnessResult, queries []string) {
 		args  []string
 		logic string
 	}
-	others := []solver{{"z3-new", []string{"-in"}, ""}, {"cvc5", []string{"--lang=smt2"}, "QF_BV"}}
+	others := []solver{{"z3", []string{"-in"}, ""}, {"cvc5", []string{"--lang=smt2"}, "QF_BV"}}
 	var mu sync.Mutex
 	sem := make(chan struct{}, e.cfg.Workers)
 	var wg sync.WaitGroup
@@ -395,12 +411,12 @@ func (e *Engine) crossCheck(res *HarnessResult, queries []string) {
 				if s.logic != "" {
 					script = "(set-logic " + s.logic + ")\n" + q
 				}
-				base := runStandalone("z3", []string{"-in"}, q, 60*time.Second)
+				base := runStandalone(e.cfg.SolverBin, []string{"-in"}, q, 60*time.Second)
 				r := runStandalone(s.bin, s.args, script, 60*time.Second)
 				mu.Lock()
 				res.CrossChecked++
 				if r != base {
-					res.CrossDisagree = append(res.CrossDisagree, fmt.Sprintf("%s says %s, z3 says %s", s.bin, r, base))
+					res.CrossDisagree = append(res.CrossDisagree, fmt.Sprintf("%s says %s, %s says %s", s.bin, r, e.cfg.SolverBin, base))
 				}
 				mu.Unlock()
 			}(q, s)
@@ -417,8 +433,8 @@ func (e *Engine) runPath(sol *Solver, entry *ssa.Function, prefix []int, wantSam
 	p = &Path{eng: e, tc: newTermCtx(), sol: sol, prefix: prefix,
 		globals: map[*ssa.Global]*Obj{}, initDone: map[*ssa.Package]bool{}, locks: map[string]*lockState{},
 		wgs: map[string]int{}, onces: map[string]bool{}, nondetCount: map[string]int{}, reached: map[string]bool{},
-		funcs: map[*ssa.Function]int{}, nativeState: map[string]interface{}{}}
-	sol.Push()
+		funcs: map[*ssa.Function]int{}, nativeState: map[string]interface{}{}, redirectsUsed: map[string]int{}}
+	sol.BeginPath()
 	defer func() {
 		if r := recover(); r != nil {
 			pe, ok := r.(pathEnd)
@@ -432,7 +448,7 @@ func (e *Engine) runPath(sol *Solver, entry *ssa.Function, prefix []int, wantSam
 			end = pe
 		}
 		p.finish(&end, wantSample)
-		sol.Pop()
+		sol.EndPath()
 	}()
 	main := &G{id: 0}
 	p.gs = []*G{main}
@@ -501,6 +517,18 @@ func (p *Path) runOneOther() bool {
 type pathSample = PathSummary
 
 func (p *Path) finish(end *pathEnd, wantSample bool) {
+	if end.kind != "infeasible" && end.kind != "internal" && end.kind != "unsupported" {
+		func() {
+			defer func() {
+				if r := recover(); r != nil {
+					if pe, ok := r.(pathEnd); ok && end.kind == "done" {
+						*end = pe
+					}
+				}
+			}()
+			p.flushAsserts()
+		}()
+	}
 	switch end.kind {
 	case "panic", "fatal", "deadlock":
 		if end.kind == "panic" && p.expectPanic {
@@ -611,4 +639,20 @@ func packageClause(src string) string {
 		}
 	}
 	return "main"
+}
+
+func envOr(k, d string) string {
+	if v := os.Getenv(k); v != "" {
+		return v
+	}
+	return d
+}
+
+// defaultSolver: z3 5.1 (z3-new) when present — markedly faster on these
+// incremental bit-vector queries — else the system z3 4.8.12.
+func defaultSolver() string {
+	if p, err := exec.LookPath("z3-new"); err == nil && p != "" {
+		return "z3-new"
+	}
+	return "z3"
 }
